@@ -5,6 +5,7 @@ EXTENDS PackUri, Json, IOUtils
 VARIABLE dummy
 
 R == JsonDeserialize(IOEnv.TRACE_FILE)
+TraceSegs == R.segs
 
 \* ---- accessor records: [p, dir, file, ext, idx, member, rels |-> [dir, mid, of], noslash]
 AccClauses == <<"Dir", "Filename", "Ext", "Idx", "Member", "RelsUri">>
